@@ -438,6 +438,10 @@ fn main() {
   for k in 0..p3_programs {
     programs.push((corpus.p3(&mut gen_rng, k), 5 * mult));
   }
+  let p4_programs: usize = arg_value(&args, "--p4").and_then(|s| s.parse().ok()).unwrap_or(80);
+  for k in 0..p4_programs {
+    programs.push((corpus.p4(&mut gen_rng, k), 7 * mult));
+  }
   // job list: (program index, config index); config 0 is the reference
   let mut jobs: Vec<(usize, u64)> = Vec::new();
   for (pi, (_, n)) in programs.iter().enumerate() {
@@ -577,7 +581,7 @@ fn main() {
     }
   }
   // samples
-  for (pi, c) in [(0usize, 1u64), (1, 1), (programs.len() - 1, 1)] {
+  for (pi, c) in [(0usize, 1u64), (1, 1), (programs.len() - 1, 1), (42, 1)] {
     if let Some(d) = results.get(&(pi, c)) {
       ev.samples.push(json!({
         "program": programs[pi].0.summary(),
@@ -590,7 +594,7 @@ fn main() {
   }
   ev.extra.insert("runs_by_program_kind".into(), kinds.to_json());
   ev.extra.insert("programs".into(), json!(programs.len()));
-  ev.extra.insert("programs_by_kind".into(), json!({"P1_all_tests": 1, "P2_single_test_entry_points": programs.iter().filter(|p| p.0.kind == ProgramKind::SingleTest).count(), "P3_ill_typed": programs.iter().filter(|p| p.0.kind == ProgramKind::IllTyped).count()}));
+  ev.extra.insert("programs_by_kind".into(), json!({"P1_all_tests": 1, "P2_single_test_entry_points": programs.iter().filter(|p| p.0.kind == ProgramKind::SingleTest).count(), "P3_ill_typed": programs.iter().filter(|p| p.0.kind == ProgramKind::IllTyped).count(), "P4_synthetic_well_typed": programs.iter().filter(|p| p.0.kind == ProgramKind::Synthetic).count()}));
   ev.extra.insert("node".into(), json!(node_path()));
   ev.extra.insert("reference_runs".into(), json!(results.keys().filter(|k| k.1 == 0).count()));
 
